@@ -153,6 +153,7 @@ def run(ctx):
 
     it = Interp(call_hook=hook)
     ids = [b"a", b"a/b", b"a//b", b"x-1"]
+    edge_ids = [b"/a", b"a/"]  # an id that begins or ends with the separator (reported per id: known finding on this tree)
     rows = [("info", None, None)] + [(k, r, None) for k in ("revision", "inventory", "signature") for r in ids] + [("file", r, f) for r in ids for f in ids]
     bad = []
     try:
@@ -173,6 +174,32 @@ def run(ctx):
         raise AnalysisError(f"{V4}: encode_name/decode_name not evaluable: {e_}")
     ctx.fact(len(rows))
     ctx.check("record-name-roundtrip", f"{V4}:BundleWriter.encode_name/BundleReader.decode_name", not bad, f"decode_name(encode_name(kind, revision_id, file_id)) gives the components back for all {len(rows)} tabled combinations (ids with and without '/')", construct=str(bad[:2]), message=f"bundle record names do not round-trip, e.g. {bad[:2]}: a revision or file id containing '/' is written in a form the reader splits differently — the record is installed under another key or not found")
+    # ids that begin or end with the separator: reported separately, per position
+    for eid in edge_ids:
+        ebad = []
+        for kind, rev, fid in [("revision", eid, None), ("file", b"r", eid), ("file", eid, b"f")]:
+            args = {"content_kind": kind, "revision_id": rev, "file_id": fid}
+            if fe_.args.args and fe_.args.args[0].arg == "self":
+                args["self"] = Opaque("writer")
+            dargs = {}
+            if fd_.args.args and fd_.args.args[0].arg == "self":
+                dargs["self"] = Opaque("reader")
+            try:
+                enc = it.call(fe_, args)
+                dec = tuple(it.call(fd_, {**dargs, "name": enc}))
+            except Raised as r_:
+                enc, dec = b"?", ("raises", r_.name)
+            except Unsupported as e_:
+                from ..index import AnalysisError
+
+                raise AnalysisError(f"{V4}: encode_name/decode_name not evaluable: {e_}")
+            if dec != (kind, rev, fid):
+                ebad.append(((kind, rev, fid), enc, dec))
+        pos = "leading" if eid.startswith(b"/") else "trailing"
+        if ebad:
+            ctx.violation("record-name-roundtrip", f"{V4}:BundleWriter.encode_name/BundleReader.decode_name[{pos}-separator]", str(ebad[0])[:200], f"a revision or file id with a {pos} '/' does not survive the record name: {ebad[0][0]} is written as {ebad[0][1]!r} and read as {ebad[0][2]} — the doubled separator merges with the neighbouring one, the record is filed under another key and the bundle cannot be installed")
+        else:
+            ctx.check("record-name-roundtrip", f"{V4}:BundleWriter.encode_name/BundleReader.decode_name[{pos}-separator]", True, f"ids with a {pos} '/' round-trip")
     inst = repo.func(V4, "RevisionInstaller._install_in_write_group")
     _it = [t for t in __import__("sa.astutil", fromlist=["x"]).loop_targets_nested(inst, lambda t, n: "iter_records" in t)]
     ctx.require(len(_it) == 1 and len(_it[0]) >= 5, f"{V4}:RevisionInstaller._install_in_write_group: record loop not found")
